@@ -40,6 +40,8 @@ var BadRaws = []string{``, `{`, `[1,]`, `tru`, `"a`, `1 2`, `{"a":}`, "\"a\nb\""
 
 // ValOpts steers value generation.
 type ValOpts struct {
+	// ValidKeys: string map keys are valid UTF-8 (distinct keys then never coincide once written)
+	ValidKeys bool
 	NonFinite bool // allow NaN/Inf
 	BadNumber bool // allow ill-formed json.Number
 	BadRaw    bool // allow ill-formed RawMessage
@@ -176,7 +178,11 @@ func Fill(r *rand.Rand, v reflect.Value, depth int, o ValOpts) {
 		}
 		for i := 0; i < n; i++ {
 			k := reflect.New(t.Key()).Elem()
-			Fill(r, k, 1, o)
+			ko := o
+			if o.ValidKeys {
+				ko.RoundTrip = true
+			}
+			Fill(r, k, 1, ko)
 			if k.Kind() == reflect.Ptr && k.IsNil() {
 				continue
 			}
